@@ -535,6 +535,14 @@ impl Task {
                     return Err(ActError::Action("cannot find cancelled tasks".to_string()));
                 }
 
+                // a cancel that is not allowed must not change anything
+                if let Some(next) = nexts.iter().find(|t| t.state().is_completed()) {
+                    return Err(ActError::Action(format!(
+                        "task('{}') is not allowed to cancel",
+                        next.id
+                    )));
+                }
+
                 // mark the path tasks as completed
                 for p in path_tasks {
                     if p.state().is_running() {
